@@ -52,6 +52,12 @@ func probes() []probe {
 	// F-C19-d: persistent queue, request of 4 split in 2+2, first part delivered, second part parked in retry, Shutdown
 	splitS := XScript{Signal: sig.Logs, Queue: "persistent", Sizer: "requests", QueueSize: 1000, Consumers: 1, Legacy: &XBatch{Min: 0, Max: 2, FlushMS: 3},
 		Retry: &XRetry{InitialMS: 1}, Par: 1, Payloads: [][]byte{logsPayload(1, 4)}, Fates: []XFate{{ID: 3, Kind: "trans", N: forever}}, AwaitAttempts: 3, AwaitMS: 5000}
+	// not a finding, a fixed regression history: persistent queue without retry, two consumers, both requests in
+	// flight when Shutdown is called, answered 2 ms later with a permanent and an ordinary error; a third request
+	// waits in the queue; then a second incarnation on the same storage
+	parkedS := XScript{Signal: sig.Logs, Queue: "persistent", Sizer: "requests", QueueSize: 1000, Consumers: 2, Par: 1,
+		Payloads: [][]byte{logsPayload(1, 3), logsPayload(4, 2), logsPayload(6, 2)}, AwaitAttempts: 2, AwaitMS: 5000,
+		Park: &XPark{After: 0, N: 2, ReleaseMS: 2, Outcomes: []string{"perm", "plain"}}, Restart: true}
 	x := func(s XScript) func() (bool, *vt.Finding) {
 		return func() (nt bool, f *vt.Finding) {
 			cK.HangGuard(60*time.Second, s, "hang/exporter", func() { nt, f = runXInner(cK, &s) })
@@ -67,6 +73,7 @@ func probes() []probe {
 		{"wait-for-result-permanent-error", "exporter-balance", wait, x(wait)},
 		{"legacy-batcher-no-queue-permanent-error", "exporter-balance", legacy, x(legacy)},
 		{"persistent-split-retry-shutdown", "exporter-balance", splitS, x(splitS)},
+		{"persistent-in-flight-failures-across-shutdown-restart", "exporter-balance", parkedS, x(parkedS)},
 	}
 }
 
